@@ -152,7 +152,12 @@ loop:
 			// the body failed: nothing more is written (the row is not closed after a failed write)
 			return err
 		}
-		if err := decorator.after(w, i, l); err != nil {
+		last := l
+		if err != nil && err.Cause() == errLoopBreak {
+			// this is the last item that is rendered: a tablerow closes its row
+			last = i + 1
+		}
+		if err := decorator.after(w, i, last); err != nil {
 			return err
 		}
 		switch {
